@@ -86,9 +86,8 @@ static void put_dir(char *out, size_t cap, const char *flags, int width, int pre
 }
 static long long fit_len(long long v, const char *len, char conv) {   /* value as the callee will read it after default promotions: keep in range of the modifier to stay defined */
     int uns = conv != 'd' && conv != 'i';
-    if (!strcmp(len, "hh")) return uns ? (unsigned char)v : (signed char)v;
-    if (!strcmp(len, "h")) return uns ? (unsigned short)v : (short)v;
-    if (!strcmp(len, "")) return uns ? (unsigned)v : (int)v;
+    /* hh and h: the promoted int argument "shall be converted to (un)signed char / short before printing" (C11 7.21.6.1p7), so any int value is defined input */
+    if (!strcmp(len, "hh") || !strcmp(len, "h") || !strcmp(len, "")) return uns ? (unsigned)v : (int)v;
     return v;
 }
 
